@@ -296,6 +296,7 @@ def run(ctx, rep):
     check_memo_keys(ctx, rep)
     check_flag_clears(ctx, rep)
     check_shared_flags(ctx, rep)
+    check_cache_values(ctx, rep)
     check_dict_writes(ctx, rep)
     check_cache_bypass(ctx, rep)
     check_listener_filters(ctx, rep)
@@ -961,148 +962,210 @@ def _grad_switched_off(e) -> bool:
     return any(isinstance(v, ast.UnaryOp) and isinstance(v.op, ast.Not) and 'requires_grad' in ast.unparse(v.operand) for v in conj)
 
 
+INPLACE_POSITIVE = """
+def reject(parameters, saved):
+    for parameter, saved_tensor in zip(parameters, saved):
+        with torch.no_grad():
+            parameter.tensor.copy_(saved_tensor)
+        parameter.fire_parameter_changed()
+"""
+INPLACE_NEGATIVE = """
+def propose(parameters, index, s):
+    p = parameters[index].tensor
+    p[index] *= s
+    parameters[index].tensor = p
+"""
+
+
 def check_inplace(ctx, rep, rule='C11.W', only=None):
     """in-place writes to <p>.tensor (directly or through a local alias) are followed by a
     notification on all paths."""
-    n_sites = 0
+    n_sites = [0]
+
+    def one(m, fn, rep):
+        aliases: Dict[str, ast.AST] = {}
+        alias_defs: Dict[str, list] = {}
+        other_defs: Dict[str, list] = {}
+        for st in ast.walk(fn):
+            if isinstance(st, ast.Assign) and len(st.targets) == 1 and isinstance(st.targets[0], ast.Name):
+                v = st.value
+                if isinstance(v, ast.Attribute) and v.attr == 'tensor' and self_attr(v) is None:
+                    aliases[st.targets[0].id] = v.value
+                    alias_defs.setdefault(st.targets[0].id, []).append(st)
+                else:
+                    other_defs.setdefault(st.targets[0].id, []).append(st)
+        # a name that is also bound to something else (a dict, a list …) is an alias of the tensor only where the alias definition reaches (flow-sensitive)
+        _cfg = None
+
+        def alias_reaches(name, st):
+            nonlocal _cfg
+            if name not in other_defs:
+                return True
+            try:
+                if _cfg is None:
+                    _cfg = CFG(fn)
+                node = _cfg.node_of(st)
+                dn = [_cfg.node_of(d) for d in alias_defs[name]]
+                on = [_cfg.node_of(d) for d in other_defs[name]]
+            except KeyError:
+                return True
+            return any(node.id in _cfg.reachable_after(d, {x.id for x in on}) for d in dn)
+        writes = []
+        for st in ast.walk(fn):
+            tgt = None
+            if isinstance(st, ast.AugAssign):
+                tgt = st.target
+            elif isinstance(st, ast.Assign) and len(st.targets) == 1 and isinstance(st.targets[0], ast.Subscript):
+                tgt = st.targets[0]
+            if tgt is None:
+                continue
+            base = tgt.value if isinstance(tgt, ast.Subscript) else tgt
+            owner = None
+            if isinstance(base, ast.Attribute) and base.attr == 'tensor' and self_attr(base) is None:
+                owner = base.value
+            elif isinstance(base, ast.Name) and base.id in aliases and isinstance(tgt, ast.Subscript) and alias_reaches(base.id, st):
+                owner = aliases[base.id]
+            if owner is not None:
+                writes.append((st, owner))
+        # in-place tensor methods: <p>.tensor.copy_(…), alias.add_(…), and Parameter.copy_ (which writes into the stored tensor without notifying)
+        in_param_class = False
+        pc = fn
+        while pc is not None and not isinstance(pc, ast.ClassDef):
+            pc = getattr(pc, '_parent', None)
+        for st in ast.walk(fn):
+            if not (isinstance(st, ast.Expr) and isinstance(st.value, ast.Call) and isinstance(st.value.func, ast.Attribute)):
+                continue
+            c = st.value
+            name = c.func.attr
+            if not name.endswith('_') or name.startswith('_') or name in ('requires_grad_', 'retain_grad_'):
+                continue
+            recv = c.func.value
+            owner = None
+            if isinstance(recv, ast.Attribute) and recv.attr == 'tensor' and self_attr(recv) is None:
+                owner = recv.value
+            elif isinstance(recv, ast.Name) and recv.id in aliases and alias_reaches(recv.id, st):
+                owner = aliases[recv.id]
+            elif name == 'copy_' and self_attr(recv) is not None and pc is not None:
+                ci = ctx.classes.classes.get(f"{m.name}.{pc.name}")
+                if ci is not None:
+                    from sa.members import Kinds, instance_members, PARAM
+                    try:
+                        k = Kinds(ctx.classes).attr_kind(ci, self_attr(recv)) if hasattr(Kinds(ctx.classes), 'attr_kind') else None
+                    except Exception:
+                        k = None
+                    if k == PARAM or (k is None and _is_param_attr(ctx, ci, self_attr(recv))):
+                        owner = recv
+            if owner is not None:
+                writes.append((st, owner))
+        if not writes:
+            return
+        # C11.G: a leaf that requires grad cannot be written in place outside torch.no_grad(): the write raises instead of updating the parameter
+        if rule == 'C11.W':
+            for st, owner in writes:
+                if not (isinstance(st, (ast.Assign, ast.AugAssign))):
+                    continue
+                guarded = False
+                p_, child_ = getattr(st, '_parent', None), st
+                while p_ is not None and p_ is not fn:
+                    if isinstance(p_, ast.With) and any('no_grad' in ast.unparse(i.context_expr) or _grad_switched_off(i.context_expr) for i in p_.items):
+                        guarded = True
+                    if isinstance(p_, ast.If) and 'requires_grad' in ast.unparse(p_.test):
+                        # only the branch on which the tensor is known not to require grad is safe
+                        negated = isinstance(p_.test, ast.UnaryOp) and isinstance(p_.test.op, ast.Not)
+                        in_else = any(child_ is x for x in p_.orelse)
+                        if (in_else and not negated) or (not in_else and negated):
+                            guarded = True
+                    p_, child_ = getattr(p_, '_parent', None), p_
+                pc2 = fn
+                while pc2 is not None and not isinstance(pc2, ast.ClassDef):
+                    pc2 = getattr(pc2, '_parent', None)
+                scope2 = f"{pc2.name}.{fn.name}" if pc2 is not None else fn.name
+                rep.check('C11.G', f"{m.name}::{scope2}::{norm_text(st)[:60]}", guarded, where(m, st), {'owner': ast.unparse(owner)},
+                          f"{scope2}: `{norm_text(st)[:60]}` writes into the tensor of {ast.unparse(owner)} in place; when that parameter requires grad (the optimiser switches "
+                          f"it on) PyTorch refuses (\"a leaf Variable that requires grad is being used in an in-place operation\"): the update raises")
+        cfg = CFG(fn)
+        for st, owner in writes:
+            n_sites[0] += 1
+            otext = ast.unparse(owner)
+            cls = None
+            p = fn
+            while p is not None and not isinstance(p, ast.ClassDef):
+                p = getattr(p, '_parent', None)
+            scope = f"{p.name}.{fn.name}" if p is not None else fn.name
+            key = f"{m.name}::{scope}::{norm_text(st)}"
+            notif = []
+            for node in cfg.stmt_nodes():
+                s2 = node.stmt
+                if node.kind == 'with_exit':
+                    continue
+                if isinstance(s2, ast.Assign):
+                    for t in s2.targets:
+                        if isinstance(t, ast.Attribute) and t.attr == 'tensor' and ast.unparse(t.value) == otext:
+                            notif.append(node)
+                for n in own_nodes(s2):
+                    if isinstance(n, ast.Call) and isinstance(n.func, ast.Attribute) and n.func.attr == 'fire_parameter_changed' \
+                            and ast.unparse(n.func.value) == otext:
+                        notif.append(node)
+            try:
+                src = cfg.node_of(st)
+            except KeyError:
+                rep.undecided(rule, key, where(m, st), 'statement not in CFG')
+                continue
+            ok = cfg.must_pass(src, cfg.exit, notif)
+            rep.check(rule, key, ok, where(m, st), {'owner': otext, 'notifications': [n.stmt.lineno for n in notif]},
+                      f"in-place write to {otext}'s tensor (`{norm_text(st)[:60]}`) is not followed on every path by `{otext}.tensor = …` or "
+                      f"`{otext}.fire_parameter_changed()`: listeners keep stale caches")
+            # client code (outside the parameter classes) does not know the kind of the parameter it is handed: the getter of a view returns a view of ANOTHER
+            # parameter's storage, that of a transformed parameter its cache, that of a concatenation a copy.  Only the setter, which every kind implements for
+            # itself, writes the value where it lives and notifies the parameters it is derived from; `fire_parameter_changed()` on the handle alone does not.
+            if rule == 'C11.W' and m.name != 'torchtree.core.parameter' and self_attr(owner) is None or (rule == 'C11.W' and m.name == '<example>'):
+                local_plain = isinstance(owner, ast.Name) and any(
+                    isinstance(a_, ast.Assign) and any(isinstance(t_, ast.Name) and t_.id == owner.id for t_ in a_.targets) and isinstance(a_.value, ast.Call)
+                    and (dotted_name(a_.value.func) or '').split('.')[-1] == 'Parameter' for a_ in ast.walk(fn))
+                if not local_plain:
+                    setters = [n_ for n_ in notif if isinstance(n_.stmt, ast.Assign)
+                               and any(isinstance(t, ast.Attribute) and t.attr == 'tensor' and ast.unparse(t.value) == otext for t in n_.stmt.targets)]
+                    ok2 = cfg.must_pass(src, cfg.exit, setters)
+                    rep.check(rule, key + '::through-the-setter', ok2, where(m, st), {'owner': otext, 'setter_assignments': [n_.stmt.lineno for n_ in setters]},
+                              f"`{norm_text(st)[:60]}` writes in place into what the tensor getter of {otext} returns and then only calls fire_parameter_changed (or nothing): "
+                              f"for a view the write lands in the viewed parameter whose listeners are not told, for a transformed or concatenated parameter it lands "
+                              f"in a cache/copy and is lost; assign through `{otext}.tensor = …` instead")
+
+    # the rule for client code (expected count on the repository: zero) must recognise the embedded example on every run
+    if rule == 'C11.W':
+        import types
+
+        class _Collect:
+            def __init__(self):
+                self.failed = []
+                self.passed = []
+
+            def check(self, rule_, key, ok, *a, **k):
+                (self.passed if ok else self.failed).append(key)
+
+            def undecided(self, *a, **k):
+                pass
+        for text, expect_fail in ((INPLACE_POSITIVE, 1), (INPLACE_NEGATIVE, 0)):
+            t = ast.parse(text)
+            for x in ast.walk(t):
+                for ch in ast.iter_child_nodes(x):
+                    ch._parent = x
+            col = _Collect()
+            saved = n_sites[0]
+            for f_ in t.body:
+                one(types.SimpleNamespace(name='<example>', relpath='<example>', tree=t), f_, col)
+            n_sites[0] = saved
+            got = len([k_ for k_ in col.failed if k_.endswith('::through-the-setter')])
+            if got != expect_fail:
+                raise AnalysisError(f"C11.W self-check: the embedded example gives {got} setter obligations violated, expected {expect_fail}")
     for m in ctx.prog.modules.values():
         for fn in ast.walk(m.tree):
             if not isinstance(fn, (ast.FunctionDef, ast.AsyncFunctionDef)):
                 continue
             if only is not None and not only(m, fn):
                 continue
-            aliases: Dict[str, ast.AST] = {}
-            alias_defs: Dict[str, list] = {}
-            other_defs: Dict[str, list] = {}
-            for st in ast.walk(fn):
-                if isinstance(st, ast.Assign) and len(st.targets) == 1 and isinstance(st.targets[0], ast.Name):
-                    v = st.value
-                    if isinstance(v, ast.Attribute) and v.attr == 'tensor' and self_attr(v) is None:
-                        aliases[st.targets[0].id] = v.value
-                        alias_defs.setdefault(st.targets[0].id, []).append(st)
-                    else:
-                        other_defs.setdefault(st.targets[0].id, []).append(st)
-            # a name that is also bound to something else (a dict, a list …) is an alias of the tensor only where the alias definition reaches (flow-sensitive)
-            _cfg = None
-
-            def alias_reaches(name, st):
-                nonlocal _cfg
-                if name not in other_defs:
-                    return True
-                try:
-                    if _cfg is None:
-                        _cfg = CFG(fn)
-                    node = _cfg.node_of(st)
-                    dn = [_cfg.node_of(d) for d in alias_defs[name]]
-                    on = [_cfg.node_of(d) for d in other_defs[name]]
-                except KeyError:
-                    return True
-                return any(node.id in _cfg.reachable_after(d, {x.id for x in on}) for d in dn)
-            writes = []
-            for st in ast.walk(fn):
-                tgt = None
-                if isinstance(st, ast.AugAssign):
-                    tgt = st.target
-                elif isinstance(st, ast.Assign) and len(st.targets) == 1 and isinstance(st.targets[0], ast.Subscript):
-                    tgt = st.targets[0]
-                if tgt is None:
-                    continue
-                base = tgt.value if isinstance(tgt, ast.Subscript) else tgt
-                owner = None
-                if isinstance(base, ast.Attribute) and base.attr == 'tensor' and self_attr(base) is None:
-                    owner = base.value
-                elif isinstance(base, ast.Name) and base.id in aliases and isinstance(tgt, ast.Subscript) and alias_reaches(base.id, st):
-                    owner = aliases[base.id]
-                if owner is not None:
-                    writes.append((st, owner))
-            # in-place tensor methods: <p>.tensor.copy_(…), alias.add_(…), and Parameter.copy_ (which writes into the stored tensor without notifying)
-            in_param_class = False
-            pc = fn
-            while pc is not None and not isinstance(pc, ast.ClassDef):
-                pc = getattr(pc, '_parent', None)
-            for st in ast.walk(fn):
-                if not (isinstance(st, ast.Expr) and isinstance(st.value, ast.Call) and isinstance(st.value.func, ast.Attribute)):
-                    continue
-                c = st.value
-                name = c.func.attr
-                if not name.endswith('_') or name.startswith('_') or name in ('requires_grad_', 'retain_grad_'):
-                    continue
-                recv = c.func.value
-                owner = None
-                if isinstance(recv, ast.Attribute) and recv.attr == 'tensor' and self_attr(recv) is None:
-                    owner = recv.value
-                elif isinstance(recv, ast.Name) and recv.id in aliases and alias_reaches(recv.id, st):
-                    owner = aliases[recv.id]
-                elif name == 'copy_' and self_attr(recv) is not None and pc is not None:
-                    ci = ctx.classes.classes.get(f"{m.name}.{pc.name}")
-                    if ci is not None:
-                        from sa.members import Kinds, instance_members, PARAM
-                        try:
-                            k = Kinds(ctx.classes).attr_kind(ci, self_attr(recv)) if hasattr(Kinds(ctx.classes), 'attr_kind') else None
-                        except Exception:
-                            k = None
-                        if k == PARAM or (k is None and _is_param_attr(ctx, ci, self_attr(recv))):
-                            owner = recv
-                if owner is not None:
-                    writes.append((st, owner))
-            if not writes:
-                continue
-            # C11.G: a leaf that requires grad cannot be written in place outside torch.no_grad(): the write raises instead of updating the parameter
-            if rule == 'C11.W':
-                for st, owner in writes:
-                    if not (isinstance(st, (ast.Assign, ast.AugAssign))):
-                        continue
-                    guarded = False
-                    p_, child_ = getattr(st, '_parent', None), st
-                    while p_ is not None and p_ is not fn:
-                        if isinstance(p_, ast.With) and any('no_grad' in ast.unparse(i.context_expr) or _grad_switched_off(i.context_expr) for i in p_.items):
-                            guarded = True
-                        if isinstance(p_, ast.If) and 'requires_grad' in ast.unparse(p_.test):
-                            # only the branch on which the tensor is known not to require grad is safe
-                            negated = isinstance(p_.test, ast.UnaryOp) and isinstance(p_.test.op, ast.Not)
-                            in_else = any(child_ is x for x in p_.orelse)
-                            if (in_else and not negated) or (not in_else and negated):
-                                guarded = True
-                        p_, child_ = getattr(p_, '_parent', None), p_
-                    pc2 = fn
-                    while pc2 is not None and not isinstance(pc2, ast.ClassDef):
-                        pc2 = getattr(pc2, '_parent', None)
-                    scope2 = f"{pc2.name}.{fn.name}" if pc2 is not None else fn.name
-                    rep.check('C11.G', f"{m.name}::{scope2}::{norm_text(st)[:60]}", guarded, where(m, st), {'owner': ast.unparse(owner)},
-                              f"{scope2}: `{norm_text(st)[:60]}` writes into the tensor of {ast.unparse(owner)} in place; when that parameter requires grad (the optimiser switches "
-                              f"it on) PyTorch refuses (\"a leaf Variable that requires grad is being used in an in-place operation\"): the update raises")
-            cfg = CFG(fn)
-            for st, owner in writes:
-                n_sites += 1
-                otext = ast.unparse(owner)
-                cls = None
-                p = fn
-                while p is not None and not isinstance(p, ast.ClassDef):
-                    p = getattr(p, '_parent', None)
-                scope = f"{p.name}.{fn.name}" if p is not None else fn.name
-                key = f"{m.name}::{scope}::{norm_text(st)}"
-                notif = []
-                for node in cfg.stmt_nodes():
-                    s2 = node.stmt
-                    if node.kind == 'with_exit':
-                        continue
-                    if isinstance(s2, ast.Assign):
-                        for t in s2.targets:
-                            if isinstance(t, ast.Attribute) and t.attr == 'tensor' and ast.unparse(t.value) == otext:
-                                notif.append(node)
-                    for n in own_nodes(s2):
-                        if isinstance(n, ast.Call) and isinstance(n.func, ast.Attribute) and n.func.attr == 'fire_parameter_changed' \
-                                and ast.unparse(n.func.value) == otext:
-                            notif.append(node)
-                try:
-                    src = cfg.node_of(st)
-                except KeyError:
-                    rep.undecided(rule, key, where(m, st), 'statement not in CFG')
-                    continue
-                ok = cfg.must_pass(src, cfg.exit, notif)
-                rep.check(rule, key, ok, where(m, st), {'owner': otext, 'notifications': [n.stmt.lineno for n in notif]},
-                          f"in-place write to {otext}'s tensor (`{norm_text(st)[:60]}`) is not followed on every path by `{otext}.tensor = …` or "
-                          f"`{otext}.fire_parameter_changed()`: listeners keep stale caches")
+            one(m, fn, rep)
+    n_sites = n_sites[0]
     rep.analysed[f'inplace_write_sites[{rule}]'] = n_sites
     return n_sites
 
@@ -1190,3 +1253,91 @@ def check_optimizer(ctx, rep):
                           f"Optimizer.{name}: after the in-place {mkind} at line {mnode.stmt.lineno} the evaluation `{ekind}` at line "
                           f"{enode.stmt.lineno} can be reached without `for p in self.parameters: p.fire_parameter_changed()`: "
                           f"the cached (pre-step) value is returned")
+
+
+def check_cache_values(ctx, rep, rule='C11.V', only=None):
+    """a cache that is refreshed under a dirty flag (`if self.F: self._A = E; self.F = False`) stands for the value E of the current inputs.  Any other store to
+    the cache must write that same expression (the constructor's first evaluation) — a method that writes something else into it and leaves or declares it fresh
+    (write-through of an assigned value, a partially updated copy) makes the object return a value that a freshly built one would not compute."""
+    n = 0
+    for cls in sorted(ctx.classes.classes.values(), key=lambda c: c.qualname):
+        if only is not None and not only(cls):
+            continue
+        fns = {}
+        for k in reversed(cls.internal_mro()):
+            for b in k.node.body:
+                if isinstance(b, ast.FunctionDef):
+                    deco = [ast.unparse(d) for d in b.decorator_list]
+                    kind = 'setter' if any(d.endswith('.setter') for d in deco) else 'getter' if 'property' in deco else 'method'
+                    fns[(b.name, kind)] = (k, b)
+
+        def flag_of_test(test):
+            return sorted({self_attr(x) for x in ast.walk(test) if isinstance(x, ast.Attribute) and self_attr(x) and isinstance(x.ctx, ast.Load)
+                           and ('need' in x.attr and 'update' in x.attr)})
+
+        def stores_in(nodes, depth=0, seen=None):
+            seen = seen if seen is not None else set()
+            out = []
+            for nd in nodes:
+                for x in ast.walk(nd):
+                    if isinstance(x, ast.Assign):
+                        for t in x.targets:
+                            a = self_attr(t)
+                            if a:
+                                out.append((a, ast.unparse(x.value), x))
+                    elif isinstance(x, ast.Call) and isinstance(x.func, ast.Attribute) and self_attr(x.func) and depth < 3:
+                        key = (x.func.attr, 'method')
+                        if key in fns and key not in seen:
+                            seen.add(key)
+                            out += stores_in(fns[key][1].body, depth + 1, seen)
+            return out
+        refresh = {}    # cache -> {value text}
+        refresh_nodes = set()
+        flag_for = {}
+        for (nm, kind), (k, fn) in fns.items():
+            for node in ast.walk(fn):
+                if isinstance(node, ast.If) and flag_of_test(node.test):
+                    served = {self_attr(x) for x in ast.walk(fn) if isinstance(x, ast.Attribute) and self_attr(x) and isinstance(x.ctx, ast.Load)
+                              and not any(x is y for st in node.body for y in ast.walk(st))}
+                    for a, val, st in stores_in(node.body):
+                        if a in served and not ('need' in a and 'update' in a):
+                            refresh.setdefault(a, set()).add(val)
+                            refresh_nodes.add(id(st))
+                            flag_for.setdefault(a, flag_of_test(node.test)[0])
+        for cache, values in sorted(refresh.items()):
+            for (nm, kind), (k, fn) in sorted(fns.items()):
+                for x in ast.walk(fn):
+                    if isinstance(x, ast.Assign) and any(self_attr(t) == cache for t in x.targets) and id(x) not in refresh_nodes:
+                        n += 1
+                        val = ast.unparse(x.value)
+                        okv = val in values or (isinstance(x.value, ast.Constant) and x.value.value is None)
+                        # the same value on another device: self._A = self._A.to(…) / .cuda(…) / .cpu()
+                        if isinstance(x.value, ast.Call) and isinstance(x.value.func, ast.Attribute) and x.value.func.attr in ('to', 'cuda', 'cpu') \
+                                and self_attr(x.value.func.value) == cache:
+                            okv = True
+                        if nm == '__init__' and not okv:
+                            # the constructor's first evaluation names its arguments directly (`module()` for `self.module()`), or stores a placeholder
+                            # that is never served because the flag is raised in the constructor
+                            strip = lambda t_: t_.replace('self.', '')
+                            flag = flag_for.get(cache)
+                            raised = any(isinstance(y, ast.Assign) and any(self_attr(t) == flag for t in y.targets) and isinstance(y.value, ast.Constant)
+                                         and y.value.value is True for k2 in cls.internal_mro() for b2 in k2.node.body
+                                         if isinstance(b2, ast.FunctionDef) and b2.name == '__init__' for y in ast.walk(b2))
+                            okv = strip(val) in {strip(v) for v in values} or raised
+                        if not okv:
+                            # a foreign value is harmless when the flag is raised again on every path before the method returns: the cache is then never served
+                            flag = flag_for.get(cache)
+                            try:
+                                cfg = CFG(fn)
+                                ups = [cfg.node_of(y) for y in ast.walk(fn) if isinstance(y, ast.Assign) and any(self_attr(t) == flag for t in y.targets)
+                                       and isinstance(y.value, ast.Constant) and y.value.value is True]
+                                if ups and cfg.must_pass(cfg.node_of(x), cfg.exit, ups):
+                                    okv = True
+                            except KeyError:
+                                pass
+                        rep.check(rule, f"{cls.qualname}.{nm}{'@setter' if kind == 'setter' else ''}::self.{cache}-holds-its-refresh-value", okv, where(k.module, x),
+                                  {'refresh_values': sorted(values), 'stored': val, 'flag': flag_for.get(cache)},
+                                  f"{cls.name}.{nm} stores `{val}` into self.{cache}, a cache that is otherwise recomputed as {sorted(values)} when self.{flag_for.get(cache)} is set: "
+                                  f"the object then serves a value that a freshly built one would not compute from the same inputs")
+    rep.analysed[f'cache_value_store_sites[{rule}]'] = n
+    return n
